@@ -297,9 +297,9 @@ func TestVerifC03Sign(t *testing.T) {
 	}
 	vRun(t, "C03.sign", func(tier string) int {
 		if tier == "thorough" {
-			return len(cfgs) * 60
+			return len(cfgs) * 240
 		}
-		return len(cfgs) * 4
+		return len(cfgs) * 12
 	}, func(c *vCase) {
 		cf := cfgs[c.Idx%len(cfgs)]
 		c.Bubble(func() {
@@ -324,6 +324,12 @@ func TestVerifC03Sign(t *testing.T) {
 				authOpt = WithNoAuthor()
 			}
 			opts := []Option{WithMessageIdFn(idfn)}
+			// a quarter of the cases keep the validation pipeline saturated (one worker held by a gate message, a queue
+			// of one filled by another) while the judged message arrives: a full queue may drop it, never wave it through
+			busy := c.Chance(0.25)
+			if busy {
+				opts = append(opts, WithValidateQueueSize(1), WithValidateWorkers(1))
+			}
 			if authOpt == nil {
 				opts = append(opts, polOpt)
 			} else if cf.order == 0 {
@@ -381,7 +387,30 @@ func TestVerifC03Sign(t *testing.T) {
 			c03SelfKey = h.key
 			var mu sync.Mutex
 			localGot := map[string]bool{}
-			for _, tn := range []string{"t", "u"} {
+			var gate chan struct{}
+			var gateMu sync.Mutex
+			if busy {
+				ps.RegisterTopicValidator("g", func(ctx context.Context, from peer.ID, m *Message) ValidationResult {
+					if strings.HasPrefix(string(m.Data), "gate") {
+						gateMu.Lock()
+						g := gate
+						gateMu.Unlock()
+						if g != nil {
+							<-g
+						}
+					}
+					return ValidationAccept
+				}, WithValidatorInline(true))
+				defer func() {
+					gateMu.Lock()
+					if gate != nil {
+						close(gate)
+						gate = nil
+					}
+					gateMu.Unlock()
+				}()
+			}
+			for _, tn := range []string{"t", "u", "g"} {
 				sub, err := ps.Subscribe(tn)
 				if err != nil {
 					panic(err)
@@ -405,7 +434,7 @@ func TestVerifC03Sign(t *testing.T) {
 					c.Inconclusive("open: %v", err)
 					return
 				}
-				p.Send(self, vSubRPC(true, "t", "u"))
+				p.Send(self, vSubRPC(true, "t", "u", "g"))
 			}
 			vSettle(50 * time.Millisecond)
 			classes := map[string]int{}
@@ -430,6 +459,29 @@ func TestVerifC03Sign(t *testing.T) {
 				// what goes on the wire is what the node decodes: judge the decoded form
 				wire := c03Clone(m)
 				verdict, class := c03Verdict(mustSign, mustVerify, anonymous, wire, self)
+				saturated := busy && c.Chance(0.6)
+				if saturated {
+					// something that passes the pre-checks of this configuration, so that it reaches the validators of "g"
+					mk := func(data string) *pb.Message {
+						seq++
+						gm := vSignedMsg(k, "g", vSeqno(seq), []byte(data))
+						if !mustSign && (mustVerify || anonymous) {
+							gm.From, gm.Seqno, gm.Signature, gm.Key = nil, nil, nil, nil
+							if !anonymous {
+								gm.From, gm.Seqno = []byte(c03ID(k)), vSeqno(seq)
+							}
+						}
+						return gm
+					}
+					gateMu.Lock()
+					gate = make(chan struct{})
+					gateMu.Unlock()
+					X.Send(self, vMsgRPC(mk(fmt.Sprintf("gate-%d", v))))
+					vSettle(5 * time.Millisecond)
+					X.Send(self, vMsgRPC(mk(fmt.Sprintf("filler-%d", v))))
+					vSettle(5 * time.Millisecond)
+					names = append(names, "while_validation_saturated")
+				}
 				omark := O.WireLen()
 				tmark := tr.Len()
 				if err := X.Send(self, vMsgRPC(m)); err != nil {
@@ -437,6 +489,14 @@ func TestVerifC03Sign(t *testing.T) {
 					return
 				}
 				vSettle(30 * time.Millisecond)
+				if saturated {
+					gateMu.Lock()
+					close(gate)
+					gate = nil
+					gateMu.Unlock()
+					vSettle(30 * time.Millisecond)
+					classes["saturated"]++
+				}
 				wb := string(vMsgBytes(wire))
 				mu.Lock()
 				loc := localGot[wb]
@@ -467,6 +527,8 @@ func TestVerifC03Sign(t *testing.T) {
 					for _, rs := range reasons {
 						switch rs {
 						case RejectMissingSignature, RejectInvalidSignature, RejectUnexpectedSignature, RejectUnexpectedAuthInfo, RejectSelfOrigin:
+						case RejectValidationQueueFull:
+							okReason = okReason && saturated
 						default:
 							okReason = false
 						}
@@ -475,6 +537,13 @@ func TestVerifC03Sign(t *testing.T) {
 						c.Violatef(map[string]string{"kind": "reject_reason", "class": class}, "%s", detail)
 					}
 				case +1:
+					if saturated {
+						// an authentic message may be dropped by a full queue; only its integrity when forwarded is judged
+						if fwdAltered {
+							c.Violatef(map[string]string{"kind": "forward_altered"}, "%s", detail)
+						}
+						break
+					}
 					if !loc || !fwd {
 						c.Violatef(map[string]string{"kind": "authentic_refused", "class": class, "policy": cf.pol.name}, "%s", detail)
 					}
